@@ -531,6 +531,11 @@ def main(args=None):
         except (KeyboardInterrupt, SystemExit):
             pass
     finally:
+        if options.line_by_line:
+            # Auto-profiled imports switch the profiler on without a
+            # matching disable; do not leave it tracing after the run.
+            while prof.enable_count > 0:
+                prof.disable_by_count()
         if options.output_interval:
             rt.stop()
         prof.dump_stats(options.outfile)
